@@ -9,7 +9,10 @@
 //   N sid cls xoff yoff inside dirs       ShapeConnectionPin(shape sid, class cls, proportional offsets, insideOffset, visDirs)
 //   C id <end> <end>                      ConnRef(id); <end> = P x y | D x y dirs | S sid cls
 //   K id n x y ...                        setRoutingCheckpoints
-//   P                                     processTransaction() and dump
+//   F id n x y ...                        ConnRef(id) with ConnRef::setFixedRoute(the n given points) (a user-specified route:
+//                                         never rerouted, but "still considered for the purpose of nudging", connector.h)
+//   M sid dx dy                           moveShape(shape sid, dx, dy) (queued; takes effect at the next P)
+//   P                                     processTransaction() and dump (may be given several times: later transactions)
 //   X                                     delete router ("X" echoed)
 // Output per P:
 //   NUDGE-BEGIN / H1 records (see tools/hooks/H1.patch) / NUDGE-END
@@ -87,6 +90,12 @@ int main()
             sc.r->setRoutingOption(penaliseOrthogonalSharedPathsAtConnEnds, o[4]);
             continue;
         }
+        if (skip && sc.r && cmd == "P")
+        {
+            // a later transaction of a scene whose earlier transaction threw: keep one record per P
+            printf("NUDGE-BEGIN\nEXC skipped-after-exception\n");
+            fflush(stdout);
+        }
         if (skip || !sc.r) continue;
         try
         {
@@ -115,6 +124,21 @@ int main()
                 std::vector<Checkpoint> cps;
                 for (int i = 0; i < n; ++i) { double x, y; is >> x >> y; cps.push_back(Checkpoint(Point(x, y))); }
                 sc.conns[id]->setRoutingCheckpoints(cps);
+            }
+            else if (cmd == "F")
+            {
+                int id, n; is >> id >> n;
+                PolyLine route(n);
+                for (int i = 0; i < n; ++i) { double x, y; is >> x >> y; route.ps[i] = Point(x, y); }
+                ConnRef *c = new ConnRef(sc.r, id);
+                c->setRoutingType(ConnType_Orthogonal);
+                c->setFixedRoute(route);
+                sc.conns[id] = c;
+            }
+            else if (cmd == "M")
+            {
+                int sid; double dx, dy; is >> sid >> dx >> dy;
+                sc.r->moveShape(sc.shapes[sid], dx, dy);
             }
             else if (cmd == "P")
             {
